@@ -16,7 +16,8 @@ type Res = Result<SessionResult, WorkerError>;
 
 pub const ZONES: &[&str] = &[
     "UTC", "Etc/GMT+12", "Etc/GMT-14", "Asia/Kolkata", "Asia/Kathmandu", "America/New_York", "Europe/Berlin",
-    "Australia/Lord_Howe", "America/Sao_Paulo", "Pacific/Apia",
+    "Australia/Lord_Howe", "America/Sao_Paulo", "Pacific/Apia", "America/St_Johns", "Pacific/Chatham", "Europe/Dublin",
+    "Africa/Casablanca", "Asia/Pyongyang", "Antarctica/Troll",
 ];
 
 /// Functions that are allowed to interpret zone-less wall-clock text with the configured timezone.
@@ -26,7 +27,11 @@ pub const ALLOWED: &[&str] = &[
 ];
 
 /// pinned instants (unix seconds): mid-year, new year's eve, DST changeover days, leap day
-pub const CLOCKS: &[i64] = &[1_700_000_000, 1_703_980_799, 1_704_067_201, 1_615_705_199, 1_636_263_000, 1_709_164_800, 1_616_895_000];
+pub const CLOCKS: &[i64] = &[
+    1_700_000_000, 1_703_980_799, 1_704_067_201, 1_615_705_199, 1_636_263_000, 1_709_164_800, 1_616_895_000,
+    // 1 Jan 2024 11:30 UTC (already 2 Jan in +14), 28 Feb 2023 23:30, 31 Jan 2025 00:10, 1 Mar 2024 00:30
+    1_704_108_600, 1_677_627_000, 1_738_282_200, 1_709_253_000,
+];
 
 fn ref_key(w: &WorldSpec, prog: usize, event: usize) -> String {
     format!("{}|{}|{:?}", w.programs[prog].source, serde_json::to_string(&w.events[event]).unwrap(), w.clock)
